@@ -28,13 +28,58 @@ type params struct {
 	maxSize            int
 	maxAssign          int // assignments per tree (all 2^n when that is not more)
 	schedPerAssignment int
+	// batches appended after the classic ones (the PRNG streams of the classic batches do
+	// not move): wide trees, capture trees, dag trees
+	wideBatches, wideCases, wideAssign int
+	capBatches, capCases               int
+	dagBatches, dagCases               int
 }
 
 func tierParams(tier string) params {
 	if tier == "thorough" {
-		return params{batches: 64, cases: 4000, maxSize: 12, maxAssign: 8, schedPerAssignment: 8}
+		return params{batches: 64, cases: 4000, maxSize: 12, maxAssign: 8, schedPerAssignment: 8,
+			wideBatches: 24, wideCases: 285, wideAssign: 6, capBatches: 8, capCases: 4000, dagBatches: 8, dagCases: 4000}
 	}
-	return params{batches: 16, cases: 2500, maxSize: 6, maxAssign: 4, schedPerAssignment: 4}
+	return params{batches: 16, cases: 2500, maxSize: 6, maxAssign: 4, schedPerAssignment: 4,
+		wideBatches: 8, wideCases: 285, wideAssign: 4, capBatches: 6, capCases: 1000, dagBatches: 4, dagCases: 1500}
+}
+
+func (p params) totalBatches() int { return p.batches + p.wideBatches + p.capBatches + p.dagBatches }
+
+// batchKind maps a batch number to its kind and its index within the kind.
+func (p params) batchKind(b int) (string, int) {
+	switch {
+	case b < p.batches:
+		return "classic", b
+	case b < p.batches+p.wideBatches:
+		return "wide", b - p.batches
+	case b < p.batches+p.wideBatches+p.capBatches:
+		return "capture", b - p.batches - p.wideBatches
+	}
+	return "dag", b - p.batches - p.wideBatches - p.capBatches
+}
+
+func (p params) casesOf(b int) int {
+	switch k, _ := p.batchKind(b); k {
+	case "wide":
+		return p.wideCases
+	case "capture":
+		return p.capCases
+	case "dag":
+		return p.dagCases
+	}
+	return p.cases
+}
+
+// capEntries: the entries that take a slice / fp.Seq / iterator / list of inputs.
+var capEntries = func() []entry {
+	var out []entry
+	for _, e := range entries {
+		if listInput(e.Fam) {
+			out = append(out, e)
+		}
+	}
+	return out
 }
 
 // ---- schedule description -------------------------------------------------------------
@@ -46,6 +91,7 @@ type schedSpec struct {
 	Order  []int  `json:"completion_order"`
 	NPre   int    `json:"completed_before_build"`
 	ObsEx  int    `json:"observer_executor"`
+	NObs   int    `json:"observers,omitempty"` // observers on the root future (0 = 1)
 }
 
 type witness struct {
@@ -54,6 +100,16 @@ type witness struct {
 	Schedule   schedSpec `json:"schedule"`
 	Stage      string    `json:"stage,omitempty"`
 	Trace      []uint16  `json:"trace,omitempty"`
+	Tamper     []string  `json:"harness_actions_on_inputs,omitempty"`
+}
+
+// vio is a violation held back until the control run of a capture scenario has decided
+// its key.
+type vio struct {
+	key, detail string
+	wit         any
+	node        *Node
+	tlog        []string
 }
 
 // per-worker distinct sets (a worker runs its cases sequentially on one goroutine)
@@ -61,11 +117,67 @@ var seenPairs = map[uint64]struct{}{}
 var seenHashes = map[uint64]struct{}{}
 
 type caseCtx struct {
-	w    *vrt.W
-	i    int
-	tr   *Tree
-	p    params
-	hits map[string]int
+	w       *vrt.W
+	i       int
+	tr      *Tree
+	p       params
+	hits    map[string]int
+	tamper  bool   // run the tamper scripts of the tree (capture scenarios)
+	control bool   // ... on clones of the input objects (control run)
+	collect *[]vio // non-nil: violations are held back
+}
+
+func (c *caseCtx) emit(node *Node, key, detail string, wit any, tlog []string) {
+	if c.collect != nil {
+		*c.collect = append(*c.collect, vio{key, detail, wit, node, tlog})
+		return
+	}
+	c.w.Violation(c.i, key, detail, wit)
+}
+
+// runChecked runs one schedule. A tree with tamper scripts is run with the scripts on; if
+// anything is violated the same (assignment, schedule seed) is run again with the inputs
+// left alone: when that control run is clean, the violation is caused by what the caller
+// did with its input after the call returned and is keyed <op>/reads-input-after-return.
+func (c *caseCtx) runChecked(a []T3, spec schedSpec, s1, s2 uint64) string {
+	if !c.tr.HasCap {
+		c.tamper, c.control, c.collect = false, false, nil
+		return c.runSchedule(a, spec, rand.New(rand.NewPCG(s1, s2)))
+	}
+	var vs, vs2 []vio
+	c.tamper, c.control, c.collect = true, false, &vs
+	v := c.runSchedule(a, spec, rand.New(rand.NewPCG(s1, s2)))
+	c.collect = nil
+	if len(vs) == 0 {
+		return v
+	}
+	// control run: the same scripts act on clones, so the harness makes the same library
+	// calls and - as long as the library behaves the same - the schedule is the same one
+	c.tamper, c.control, c.collect = true, true, &vs2
+	c.runSchedule(a, spec, rand.New(rand.NewPCG(s1, s2)))
+	c.tamper, c.control, c.collect = false, false, nil
+	if len(vs2) > 0 {
+		c.w.Add("capture.control_run_violated_too", 1)
+		for _, x := range vs2 {
+			c.w.Violation(c.i, x.key, x.detail, x.wit)
+		}
+		return ""
+	}
+	for _, x := range vs {
+		n := x.node
+		if n.origin != nil {
+			n = n.origin
+		}
+		if n.Cap == 0 {
+			// the blamed subexpression has no input object the harness touched: keep the key
+			c.w.Violation(c.i, x.key, x.detail, x.wit)
+			continue
+		}
+		detail := fmt.Sprintf("the derived future depends on what the caller does with its input object AFTER the combinator returned (the reference is the expression over the inputs as they were at the call).\nharness actions after the call(s) returned:\n  %s\nwith the same actions applied to a clone of the input object (the combinator's own input left alone) the same tree, assignment and schedule seed satisfy every check.\nobserved as %s:\n%s",
+			strings.Join(x.tlog, "\n  "), x.key, x.detail)
+		c.w.Violation(c.i, opKey(n)+"/reads-input-after-return", detail, x.wit)
+	}
+	return ""
 }
 
 func assignStrings(a []T3) []string {
@@ -116,13 +228,20 @@ func opKey(n *Node) string {
 // final value of the derived future, or "" when the schedule was inconclusive or a
 // violation was already reported.
 func (c *caseCtx) runSchedule(a []T3, spec schedSpec, sr *rand.Rand) string {
-	w, i, tr := c.w, c.i, c.tr
+	w, tr := c.w, c.tr
 	nsrc := tr.NSrc
 	mode := sched.Uniform
 	if spec.Mode == "pct" {
 		mode = sched.PCT
 	}
-	s := sched.New(sr, mode, spec.Depth, 60+40*tr.Size)
+	horizon := 60 + 40*tr.Size
+	if tr.Kind == "wide" {
+		horizon += 40 * nsrc
+	}
+	s := sched.New(sr, mode, spec.Depth, horizon)
+	if tr.Kind == "wide" {
+		s.StepCap = 400000
+	}
 	s.KeepTrace = w.Replay
 	fp.VerifSetAtomicHook(s.Yield)
 	fp.VerifSetSpawn(func(task func()) { s.Spawn("executor-task", task) })
@@ -130,52 +249,77 @@ func (c *caseCtx) runSchedule(a []T3, spec schedSpec, sr *rand.Rand) string {
 	defer fp.VerifSetSpawn(nil)
 
 	b := newB(w, nsrc)
+	b.tamper = c.tamper
+	b.onClone = c.control
+	b.memoOn = tr.NRef > 0
 	w.Site(tr.Root.Op)
 	defer func() {
 		b.mu.Lock()
 		for k, v := range b.hits {
 			c.hits[k] += v
 		}
+		for k, v := range b.cnt {
+			w.Add(k, v)
+		}
 		b.mu.Unlock()
 	}()
 	st := make([]T3, nsrc)
 	re := &refEval{st: st}
+	if spec.Staged {
+		b.pendingAt = func(n *Node, env []int) bool { return re.eval(n, env).S == pending }
+	}
 	stageName := "build"
+	tlog := func() []string {
+		b.mu.Lock()
+		defer b.mu.Unlock()
+		return append([]string(nil), b.tlog...)
+	}
 	wit := func() any {
-		return witness{Tree: tr, Assignment: assignStrings(a), Schedule: spec, Stage: stageName, Trace: s.Trace()}
+		return witness{Tree: tr, Assignment: assignStrings(a), Schedule: spec, Stage: stageName, Trace: s.Trace(), Tamper: tlog()}
 	}
 	describe := func() string {
-		return fmt.Sprintf("tree: %s\nsources: %s\nschedule: %s/%s, completion order %v, first %d completed before the tree was built\nstage: %s\nscheduler: %d steps, %d switches, hash %x",
-			tr.Text, strings.Join(assignStrings(a), " "), map[bool]string{true: "staged", false: "racing"}[spec.Staged], spec.Mode, spec.Order, spec.NPre, stageName, s.Steps, s.Switches, s.Hash())
+		extra := ""
+		if tl := tlog(); len(tl) > 0 {
+			extra = "\nharness actions on caller-owned inputs after the call returned:\n  " + strings.Join(tl, "\n  ")
+		}
+		return fmt.Sprintf("tree: %s\nsources: %s\nschedule: %s/%s, completion order %v, first %d completed before the tree was built\nstage: %s\nscheduler: %d steps, %d switches, hash %x%s",
+			tr.Text, strings.Join(assignStrings(a), " "), map[bool]string{true: "staged", false: "racing"}[spec.Staged], spec.Mode, spec.Order, spec.NPre, stageName, s.Steps, s.Switches, s.Hash(), extra)
 	}
 	report := func(cd candidate) {
 		n := cd.in.n
 		detail := fmt.Sprintf("%s: subexpression #%d %s (env %v)\nreference (three-valued Try, left to right): %s\nlibrary future: %s\n%s",
 			cd.kind, n.ID, n.String(), cd.in.env, cd.ref, cd.got, describe())
-		w.Violation(i, opKey(n)+"/"+cd.kind, detail, wit())
+		c.emit(n, opKey(n)+"/"+cd.kind, detail, wit(), tlog())
 	}
 
+	// observers on the root future: one, or several (dag batches) on different executors
+	nobs := spec.NObs
+	if nobs < 1 {
+		nobs = 1
+	}
 	var omu sync.Mutex
-	obsCount := 0
-	var obsVal fp.Try[int]
+	obsCount := make([]int, nobs)
+	obsVal := make([]fp.Try[int], nobs)
 	var F fp.Future[int]
 	built := false
 	buildAll := func() {
 		F = b.build(tr.Root, nil)
-		b.hit("Future.OnComplete")
-		var ex []fp.Executor
-		switch spec.ObsEx {
-		case 1:
-			ex = []fp.Executor{inlineExec{}}
-		case 2:
-			ex = []fp.Executor{b.q}
+		for j := 0; j < nobs; j++ {
+			b.hit("Future.OnComplete")
+			var ex []fp.Executor
+			switch (spec.ObsEx + j) % 3 {
+			case 1:
+				ex = []fp.Executor{inlineExec{}}
+			case 2:
+				ex = []fp.Executor{b.q}
+			}
+			F.OnComplete(func(t fp.Try[int]) {
+				omu.Lock()
+				obsCount[j]++
+				obsVal[j] = t
+				omu.Unlock()
+			}, ex...)
 		}
-		F.OnComplete(func(t fp.Try[int]) {
-			omu.Lock()
-			obsCount++
-			obsVal = t
-			omu.Unlock()
-		}, ex...)
 		built = true
 	}
 	complete := func(k int) { b.src[k].Complete(a[k].toTry()) }
@@ -285,6 +429,15 @@ func (c *caseCtx) runSchedule(a []T3, spec schedSpec, sr *rand.Rand) string {
 		if r.S != pending && done < nsrc {
 			w.Add("staged.determined_before_all_sources_asserted", 1)
 		}
+		if tr.Kind == "wide" && tr.Wide >= 9 {
+			w.Add("wide.ge9.stages", 1)
+			if r.S == pending && failed > 0 {
+				w.Add("wide.ge9.not_yet_determined_with_failed_source_complete", 1)
+			}
+			if r.S == failure && done < nsrc {
+				w.Add("wide.ge9.failure_determined_before_all_sources", 1)
+			}
+		}
 	}
 
 	for _, k := range spec.Order[:spec.NPre] {
@@ -302,6 +455,7 @@ func (c *caseCtx) runSchedule(a []T3, spec schedSpec, sr *rand.Rand) string {
 		if !check(len(rest) == 0) {
 			return ""
 		}
+		b.runDeferred()
 		for j, k := range rest {
 			s.Spawn(fmt.Sprintf("completer-%d", k), func() { complete(k) })
 			st[k] = a[k]
@@ -313,6 +467,7 @@ func (c *caseCtx) runSchedule(a []T3, spec schedSpec, sr *rand.Rand) string {
 			if !check(j == len(rest)-1) {
 				return ""
 			}
+			b.runDeferred()
 		}
 	} else {
 		s.Spawn("builder", buildAll)
@@ -325,7 +480,7 @@ func (c *caseCtx) runSchedule(a []T3, spec schedSpec, sr *rand.Rand) string {
 		}
 		stageName = "final quiescence (racing)"
 		if !built {
-			w.Violation(i, "harness/builder-did-not-run", describe(), wit())
+			c.emit(tr.Root, "harness/builder-did-not-run", describe(), wit(), tlog())
 			return ""
 		}
 		if !check(true) {
@@ -338,25 +493,60 @@ func (c *caseCtx) runSchedule(a []T3, spec schedSpec, sr *rand.Rand) string {
 		report(*late)
 		return ""
 	}
-	omu.Lock()
-	oc, ov := obsCount, obsVal
-	omu.Unlock()
 	root := &inst{n: tr.Root, f: F}
-	if oc != 1 {
-		report(candidate{root, "observer-not-exactly-once", re.eval(tr.Root, nil), fmt.Sprintf("completed with %s; the OnComplete observer fired %d times", tryStr(F.Value()), oc)})
-		return ""
+	for j := 0; j < nobs; j++ {
+		omu.Lock()
+		oc, ov := obsCount[j], obsVal[j]
+		omu.Unlock()
+		if oc != 1 {
+			report(candidate{root, "observer-not-exactly-once", re.eval(tr.Root, nil), fmt.Sprintf("completed with %s; OnComplete observer %d of %d fired %d times", tryStr(F.Value()), j+1, nobs, oc)})
+			return ""
+		}
+		if canon(ov) != canon(F.Value()) {
+			report(candidate{root, "observer-value-differs", re.eval(tr.Root, nil), fmt.Sprintf("Value()=%s but observer %d of %d received %s", tryStr(F.Value()), j+1, nobs, tryStr(ov))})
+			return ""
+		}
 	}
-	if canon(ov) != canon(F.Value()) {
-		report(candidate{root, "observer-value-differs", re.eval(tr.Root, nil), fmt.Sprintf("Value()=%s but the observer received %s", tryStr(F.Value()), tryStr(ov))})
-		return ""
+	if nobs > 1 {
+		w.Add("dag.schedules_with_several_observers", 1)
+		w.Add("dag.extra_observers_fired_exactly_once", int64(nobs-1))
 	}
 	b.mu.Lock()
 	dup, dupK, ncall := b.dup, b.dupK, b.ncall
 	ninst := len(b.insts)
+	nrefInst := 0
+	for _, in := range b.insts {
+		if in.n.Fam == "ref" {
+			nrefInst++
+		}
+	}
+	leftN, leftMsg := b.leftoverN, b.leftoverMsg
 	b.mu.Unlock()
 	if dup != nil {
-		w.Violation(i, opKey(dup)+"/user-function-called-twice", fmt.Sprintf("a user function of #%d %s ran twice for one evaluation (call key id/slot/env/args = %s)\n%s", dup.ID, dup.String(), dupK, describe()), wit())
+		c.emit(dup, opKey(dup)+"/user-function-called-twice", fmt.Sprintf("a user function of #%d %s ran twice for one evaluation (call key id/slot/env/args = %s)\n%s", dup.ID, dup.String(), dupK, describe()), wit(), tlog())
 		return ""
+	}
+	if leftN != nil {
+		c.emit(leftN, opKey(leftN)+"/reads-input-after-return", leftMsg+"\n"+describe(), wit(), tlog())
+		return ""
+	}
+	if nrefInst > 0 {
+		w.Add("dag.schedules_with_shared_future", 1)
+		w.Add("dag.second_uses_of_a_future_checked", int64(nrefInst))
+	}
+	if tr.Kind == "wide" {
+		w.Add("wide.schedules", 1)
+		if tr.Wide >= 9 {
+			w.Add("wide.ge9.schedules", 1)
+			if spec.Staged {
+				w.Add("wide.ge9.schedules.staged", 1)
+			} else {
+				w.Add("wide.ge9.schedules.racing", 1)
+			}
+		}
+	}
+	if c.tamper && !c.control && tr.HasCap {
+		w.Add("capture.schedules", 1)
 	}
 	// bookkeeping
 	w.Add("schedules", 1)
@@ -383,8 +573,8 @@ func (c *caseCtx) runSchedule(a []T3, spec schedSpec, sr *rand.Rand) string {
 	if nsrc >= 2 && s.Switches >= 1 {
 		w.DistinctHash(pair*1099511628211 ^ s.Hash())
 	}
-	if w.WantSample() && nsrc >= 2 && spec.Staged && tr.Size >= 2 {
-		w.Sample(map[string]any{"tree": tr.Text, "sources": assignStrings(a), "schedule": spec, "result": tryStr(F.Value()), "steps": s.Steps, "switches": s.Switches, "schedule_hash": fmt.Sprintf("%x", s.Hash()), "node_instances": ninst})
+	if w.WantSample() && nsrc >= 2 && spec.Staged && (tr.Size >= 2 || tr.Kind == "wide") && len(tr.Text) < 1500 {
+		w.Sample(map[string]any{"kind": tr.Kind, "harness_actions_on_inputs": tlog(), "tree": tr.Text, "sources": assignStrings(a), "schedule": spec, "result": tryStr(F.Value()), "steps": s.Steps, "switches": s.Switches, "schedule_hash": fmt.Sprintf("%x", s.Hash()), "node_instances": ninst})
 	}
 	return canon(F.Value())
 }
@@ -410,26 +600,49 @@ func genSpec(r *rand.Rand, nsrc int, staged bool) schedSpec {
 func runCase(w *vrt.W, i int) {
 	r := w.Rand(i)
 	p := tierParams(w.Tier)
-	root := entries[(i+w.Batch*37)%len(entries)]
-	tr := genTree(r, root, p.maxSize)
+	kind, kidx := p.batchKind(w.Batch)
+	var tr *Tree
+	switch kind {
+	case "wide":
+		// every (family, size) pair is hit in turn; consecutive cases differ in both
+		nf, ns := len(wideFams), len(wideSizes)
+		combo := (kidx*p.wideCases + i) % (nf * ns)
+		fam := combo % nf
+		tr = genWide(r, wideFams[fam], wideSizes[(combo/nf+fam*4)%ns])
+	case "capture":
+		ce := capEntries()
+		tr = genTreeKind(r, ce[(i+kidx*5)%len(ce)], p.maxSize, "capture")
+	case "dag":
+		tr = genTreeKind(r, entries[(i+w.Batch*37)%len(entries)], p.maxSize+2, "dag")
+	default:
+		tr = genTree(r, entries[(i+w.Batch*37)%len(entries)], p.maxSize)
+	}
 	w.Begin(i, tr.Root.Op)
 	defer w.Done(i)
 	c := &caseCtx{w: w, i: i, tr: tr, p: p, hits: map[string]int{}}
 	nsrc := tr.NSrc
-	// assignments: every success/failure combination when there are few, random ones otherwise
-	var masks []int
-	total := 1 << nsrc
-	if total <= p.maxAssign {
-		for m := 0; m < total; m++ {
-			masks = append(masks, m)
+	var assigns [][]T3
+	if kind == "wide" {
+		pats := []int{0, 1, 2, 3, 0, 4, 1, 2}[:p.wideAssign]
+		if nsrc == 0 {
+			pats = pats[:1]
 		}
-		w.Add("trees.all_assignments", 1)
+		for _, pat := range pats {
+			assigns = append(assigns, wideAssignment(r, nsrc, pat))
+		}
 	} else {
-		perm := r.Perm(total)
-		masks = perm[:p.maxAssign]
-	}
-	var cur witness
-	w.Guard(i, func() any { return cur }, func() {
+		// assignments: every success/failure combination when there are few, random ones otherwise
+		var masks []int
+		total := 1 << nsrc
+		if total <= p.maxAssign {
+			for m := 0; m < total; m++ {
+				masks = append(masks, m)
+			}
+			w.Add("trees.all_assignments", 1)
+		} else {
+			perm := r.Perm(total)
+			masks = perm[:p.maxAssign]
+		}
 		for _, m := range masks {
 			a := make([]T3, nsrc)
 			for k := range a {
@@ -439,13 +652,27 @@ func runCase(w *vrt.W, i int) {
 					a[k] = succ(11 * (k + 1))
 				}
 			}
+			assigns = append(assigns, a)
+		}
+	}
+	var cur witness
+	w.Guard(i, func() any { return cur }, func() {
+		for _, a := range assigns {
 			first := ""
 			var firstSpec schedSpec
 			for sidx := 0; sidx < p.schedPerAssignment; sidx++ {
-				spec := genSpec(r, nsrc, sidx%2 == 0)
+				var spec schedSpec
+				if kind == "wide" {
+					spec = wideSpec(r, a, sidx%2 == 0)
+				} else {
+					spec = genSpec(r, nsrc, sidx%2 == 0)
+				}
+				if kind == "dag" {
+					spec.NObs = 1 + r.IntN(3)
+				}
 				cur = witness{Tree: tr, Assignment: assignStrings(a), Schedule: spec}
-				sr := rand.New(rand.NewPCG(r.Uint64(), r.Uint64()))
-				v := c.runSchedule(a, spec, sr)
+				s1, s2 := r.Uint64(), r.Uint64()
+				v := c.runChecked(a, spec, s1, s2)
 				if v == "" {
 					continue
 				}
@@ -459,11 +686,31 @@ func runCase(w *vrt.W, i int) {
 		}
 	})
 	w.Add("trees", 1)
+	w.Add("trees."+kind, 1)
 	if nsrc == 0 {
 		w.Add("trees.zero_sources", 1)
 	}
 	if nsrc >= 2 {
 		w.Add("trees.two_or_more_sources", 1)
+	}
+	switch kind {
+	case "wide":
+		w.Add(fmt.Sprintf("wide.trees.elements_%02d", tr.Wide), 1)
+		if tr.Wide >= 9 {
+			w.Add("wide.ge9.trees."+tr.Root.Fam, 1)
+			w.Max("wide.max_sources", int64(nsrc))
+		}
+		if tr.HasCap {
+			w.Add("wide.trees_with_tampered_input", 1)
+		}
+	case "capture":
+		if tr.HasCap {
+			w.Add("capture.trees_with_tampered_input", 1)
+		}
+	case "dag":
+		if tr.NRef > 0 {
+			w.Add("dag.trees_with_shared_future", 1)
+		}
 	}
 	w.Max("max_tree_size", int64(tr.Size))
 	for k, v := range c.hits {
@@ -474,24 +721,29 @@ func runCase(w *vrt.W, i int) {
 func main() {
 	vrt.Main(vrt.Config{
 		Property:    "C06",
-		Batches:     func(tier string) int { return tierParams(tier).batches },
-		Cases:       func(tier string, b int) int { return tierParams(tier).cases },
+		Batches:     func(tier string) int { return tierParams(tier).totalBatches() },
+		Cases:       func(tier string, b int) int { return tierParams(tier).casesOf(b) },
 		WorkerProcs: 2,
 		Run: func(w *vrt.W) {
 			for i := w.From; i < w.To; i++ {
 				runCase(w, i)
 			}
 		},
-		Rule: "case = one expression tree (root combinator cycles through every exported function of the families, the rest is PRNG; size = number of combinator nodes, <=6 quick / <=12 thorough, leaves are source promises, Successful/Failed, bound arguments or Apply/FuncN/UnitN futures) over 0..4 source promises; for every success/failure assignment of the sources (all 2^n when <=4 quick / <=8 thorough, else that many random ones) 4 (quick) / 8 (thorough) schedules are run, alternately STAGED (PRNG subset of sources completed before the tree is built in controller context, then the others one at a time by a completer task, run-to-quiescence incl. the harness queue executor after each, oracle after each stage) and RACING (a builder task and one completer task per source start together), each under a fresh seeded cooperative scheduler (uniform, or PCT with 1..3 change points) that owns every atomic step of every promise and every default-executor task; nodes use the default, an inline or the harness queue executor (PRNG per node). Oracle at every quiescent point, for the root and for every intermediate node instance: IsCompleted == (three-valued left-to-right Try reference of that subexpression is determined); value == reference value (sentinel errors by pointer, panics by exposed panic value); at final quiescence additionally: completed (else never-completes), observer fired exactly once with that value, no user function ran twice, same value as in every other schedule of the same (tree, assignment). distinct_nontrivial = distinct (tree, assignment+completion order, schedule hash) triples with >=2 sources and >=1 context switch.",
+		Rule: "case = one expression tree (root combinator cycles through every exported function of the families, the rest is PRNG; size = number of combinator nodes, <=6 quick / <=12 thorough, leaves are source promises, Successful/Failed, bound arguments or Apply/FuncN/UnitN futures) over 0..4 source promises; for every success/failure assignment of the sources (all 2^n when <=4 quick / <=8 thorough, else that many random ones) 4 (quick) / 8 (thorough) schedules are run, alternately STAGED (PRNG subset of sources completed before the tree is built in controller context, then the others one at a time by a completer task, run-to-quiescence incl. the harness queue executor after each, oracle after each stage) and RACING (a builder task and one completer task per source start together), each under a fresh seeded cooperative scheduler (uniform, or PCT with 1..3 change points) that owns every atomic step of every promise and every default-executor task; nodes use the default, an inline or the harness queue executor (PRNG per node). Oracle at every quiescent point, for the root and for every intermediate node instance: IsCompleted == (three-valued left-to-right Try reference of that subexpression is determined); value == reference value (sentinel errors by pointer, panics by exposed panic value); at final quiescence additionally: completed (else never-completes), observer fired exactly once with that value, no user function ran twice, same value as in every other schedule of the same (tree, assignment). distinct_nontrivial = distinct (tree, assignment+completion order, schedule hash) triples with >=2 sources and >=1 context switch. " +
+			"Three further kinds of batches follow the classic ones. WIDE: one list-shaped node (Sequence, SequenceIterator, Traverse*, FlatMapTraverse*, iterator|seq|list.FoldFuture) or one chain of Zip3 / LiftA2..9 nodes over n leaf operands, every (family, n) pair with n in 0..8,9,10,15,16,17,31,32,33,64,65 in turn, one source promise per operand / element (a quarter of the trees: a few immediate or repeated operands, or fewer sources than elements); assignments: one failing source (not the first), two, a quarter, none, all; completion orders: PRNG, last position first, failing sources first (highest index first), index order; staged (one source per stage, oracle after each) and racing. " +
+			"CAPTURE: classic generator with a list-input root, 0..8 elements, and a tamper script on every list-input node (also on half of the wide trees): right after the library call returned (FlatMapTraverse*: at the next quiescent point of a staged schedule) the harness overwrites the elements of the slice / of the buffer behind the iterator it passed with poison values, reads on from the iterator, appends to the slice in place / feeds further elements to the iterator, and calls a second, different combinator on the same input object (before or after the poisoning; own reference); the reference of the node is the expression over the inputs as they were at the call (a single-use iterator: drained at the call). Any violation in such a run is re-run with the same scripts acting on clones of the input objects (same library calls, same schedule): clean control run => key <op>/reads-input-after-return. " +
+			"DAG: classic generator in which an operand may be a second use of the future of an earlier node instance of the same strict region (or of an enclosing one, from inside a function body), 1..3 OnComplete observers on the root on different executors, each of which must fire exactly once with the value.",
 		Assumptions: []string{
 			"interleavings are explored at the granularity of the atomic steps of internal/atomic.Value (hook before each step) and of executor tasks; they are sampled (uniform + PCT), not enumerated",
 			"the scheduler serialises tasks: only sequentially consistent interleavings are explored",
 			"'always completes' is decided as a bounded safety property: at quiescence of a scheduler that owns every task, with all sources completed, the derived future is complete; futures completed by timers (future.Await, promise.WithTimeout) are out of scope",
 			"distinct.* counters are distinct within each batch, summed over batches",
+			"input capture: a combinator must evaluate the inputs it was called with; for a single-use fp.Iterator argument this is modelled as what the unchanged library does - the iterator is drained before the call returns - so a later read by the caller finds nothing, elements fed later are never consumed, and a second combinator called on it sees exactly the later elements",
+			"the second call on the input of list.FoldFuture (an fp.List view of the caller's slice) is always made before the slice is overwritten, so nothing is assumed about list.FromSlice sharing storage",
 		},
 		Floors: func(tier string) map[string]int64 {
 			f := map[string]int64{
-				"trees": 30000, "schedules": 200000,
+				"trees": 45000, "schedules": 350000,
 				"staged.not_yet_determined_asserted":                    40000,
 				"staged.not_yet_determined_with_failed_source_complete": 20000,
 				"staged.determined_before_all_sources_asserted":         50000,
@@ -514,6 +766,42 @@ func main() {
 			}
 			for _, h := range hitNames() {
 				f["hit."+h] = min
+			}
+			// wide / capture / dag batches: (quick, thorough)
+			nf := map[string][2]int64{
+				"trees.wide": {2000, 6000}, "trees.capture": {5000, 28000}, "trees.dag": {5000, 28000},
+				"wide.ge9.schedules.staged":                               {7000, 70000},
+				"wide.ge9.schedules.racing":                               {7000, 70000},
+				"wide.ge9.not_yet_determined_with_failed_source_complete": {50000, 600000},
+				"wide.ge9.failure_determined_before_all_sources":          {20000, 300000},
+				"wide.trees_with_tampered_input":                          {700, 2000},
+				"capture.calls_tampered":                                  {50000, 1000000},
+				"capture.calls_tampered.deferred":                         {2000, 40000},
+				"capture.tampered_while_result_pending":                   {12000, 250000},
+				"capture.slices_overwritten":                              {20000, 400000},
+				"capture.slices_appended":                                 {20000, 400000},
+				"capture.iterator_found_drained":                          {10000, 200000},
+				"capture.iterators_fed":                                   {10000, 200000},
+				"capture.second_calls":                                    {25000, 500000},
+				"dag.trees_with_shared_future":                            {1500, 10000},
+				"dag.second_uses_of_a_future_checked":                     {30000, 600000},
+				"dag.schedules_with_several_observers":                    {20000, 400000},
+			}
+			for _, n := range wideSizes {
+				nf[fmt.Sprintf("wide.trees.elements_%02d", n)] = [2]int64{100, 300}
+			}
+			for _, wf := range wideFams {
+				nf["wide.ge9.trees."+wf.Fam] = [2]int64{60, 200}
+			}
+			for _, e := range capEntries() {
+				nf["capture.op."+e.Op] = [2]int64{1000, 20000}
+			}
+			for k, v := range nf {
+				if tier == "thorough" {
+					f[k] = v[1]
+				} else {
+					f[k] = v[0]
+				}
 			}
 			return f
 		},
